@@ -72,6 +72,14 @@ func c11Heap(shape string) []gts.Sequence {
 		hb = append(make([]byte, 0, len(hostRes)+16), hostRes...)
 		gb = append(make([]byte, 0, len(guestRes)+16), guestRes...)
 		sb = cloneExact(sibRes)
+	case "subempty":
+		// as "sub", but the guest is an empty window in the middle of the shared buffer
+		buf := append(append([]byte{}, hostRes...), sibRes...)
+		buf = append(buf, make([]byte, 16)...)
+		hb = buf[:len(hostRes)]
+		gb = buf[len(hostRes):len(hostRes)]
+		sb = buf[len(hostRes) : len(hostRes)+len(sibRes)]
+		guestRes = nil
 	case "sub":
 		// host, guest and sibling are consecutive sub-slices of one buffer
 		buf := append(append(append([]byte{}, hostRes...), guestRes...), sibRes...)
@@ -121,7 +129,7 @@ func c11Heap(shape string) []gts.Sequence {
 		if kind == "genbank" {
 			// Origin wraps its own formatted buffer; residues shape then only matters through WithBytes
 			f := seqio.GenBankFields{LocusName: fmt.Sprint(info), Molecule: gts.DNA, Topology: gts.Circular,
-				References: []seqio.Reference{{Number: 1, Info: "(bases 1 to 4)"}, {Number: 2, Info: "(bases 3 to 9)"}}, Keywords: []string{"k"}}
+				References: []seqio.Reference{{Number: 2, Info: "(bases 1 to 4)"}, {Number: 5, Info: "(bases 3 to 9)"}}, Keywords: []string{"k"}}
 			return seqio.GenBank{Fields: f, Table: t, Origin: seqio.NewOrigin(b)}
 		}
 		return gts.New(info, t, b)
@@ -312,8 +320,11 @@ func init() {
 			}
 			r.Rule = fmt.Sprintf("every program of 1..%d operations (25 operation kinds x their small argument menus; plus every program one step longer over a 12-operation core menu applied to host, guest or the latest result) over a heap that starts with host, guest and a sibling sharing their buffers, each operation applied to any values already in the heap; x 3 residue-buffer shapes (len==cap, spare capacity, sub-slices of one buffer) x 5 feature-table shapes (incl. a guest / a host without features) x {BasicSequence, seqio.GenBank}; plus a size dimension (host table padded with 1..70, ~122, ~250, ~506 extra features; host residues along the size ladder up to 20000 quick / 300000 thorough) under every one-step program and 70 two-step programs; invariant on every state: every heap value reads the same as when it entered the heap, and repeating a call gives the same result; distinct key = (shape, program); non-trivial = program touches a shared-buffer shape or has >=2 steps", depth)
 			var shapes []string
-			for _, b := range []string{"exact", "spare", "sub"} {
+			for _, b := range []string{"exact", "spare", "sub", "subempty"} {
 				for _, t := range []string{"exact", "spare", "sub", "bareguest", "barehost"} {
+					if b == "subempty" && t != "bareguest" {
+						continue
+					}
 					for _, k := range []string{"basic", "genbank"} {
 						shapes = append(shapes, b+"/"+t+"/"+k)
 					}
